@@ -28,14 +28,32 @@ TICK_INNER = "Nucleo::<T>::tick_inner"
 
 
 def is_worker_field(e, name):
-    """e is a read of <guard-deref>.name"""
+    """e is a read of <guard-deref>.name (or the old value returned by mem::replace on it)"""
+    if replaced_worker_field(e) == name:
+        return True
     e = peel(e) if e and e[0] in ("ref", "deref") else e
     if not (isinstance(e, tuple) and e[0] == "field" and e[2] == name):
         return False
     return "worker::Worker<" in (e[3] or "")
 
 
+def replaced_worker_field(e):
+    """`mem::replace(&mut worker.FIELD, v)` evaluates to the OLD value of the field: returns FIELD (or None)."""
+    if isinstance(e, tuple) and e and e[0] in ("ref", "deref"):
+        e = peel(e)
+    if isinstance(e, tuple) and e and e[0] == "call" and (str(e[1]).endswith("mem::replace") or str(e[1]).endswith("mem::take")) and e[2]:
+        a0 = e[2][0]
+        while isinstance(a0, tuple) and a0 and a0[0] in ("ref", "deref"):
+            a0 = a0[1]
+        if isinstance(a0, tuple) and a0 and a0[0] == "field" and "worker::Worker<" in (a0[3] or ""):
+            return a0[2]
+    return None
+
+
 def canon_atom(e):
+    rf = replaced_worker_field(e)
+    if rf is not None:
+        return ("wf", rf)
     """Canonical form of a guard atom: field reads through the guard collapse to ('wf', name)."""
     e = peel(e) if isinstance(e, tuple) and e and e[0] in ("ref", "deref") else e
     if isinstance(e, tuple) and e and e[0] == "field" and "worker::Worker<" in (e[3] or ""):
@@ -74,7 +92,8 @@ def rule_changed_guards_mutation(ctx):
     # reads/writes of Worker.running in tick_inner
     reads = field_reads(ti, "running", "worker::Worker<")
     writes = [w for w in field_assigns(ti, "running", "worker::Worker<")]
-    if not reads:
+    swapped = [bi for bi, si, s_ in writes if si == "replace"]
+    if not reads and not swapped:
         raise Inconclusive("tick_inner never reads inner.running")
     for rbi, rsi, rs in reads:
         for wbi, wsi, ws in writes:
